@@ -200,6 +200,9 @@ let () =
   if Array.length Sys.argv >= 4 && Sys.argv.(1) = "genaig" then (
     C18p.gen Sys.argv.(2) Sys.argv.(3);
     exit 0);
+  if Array.length Sys.argv >= 4 && Sys.argv.(1) = "genq" then (
+    C18q.gen Sys.argv.(2) Sys.argv.(3);
+    exit 0);
   iter_cases stdin (fun c ->
       let bad = ref false in
       List.iteri
@@ -256,6 +259,8 @@ let () =
               | 'D' -> C18p.handle_d res
               | 'N' -> if C18p.handle_n c i opl res then bad := true
               | 'M' -> C18p.handle_m res
+              | 'X' -> if C18q.handle_x c i opl res then bad := true
+              | 'Y' -> C18q.handle_y opl res
               | _ -> failwith ("unknown line " ^ l))
         c.lines;
       stat "cases" 1;
